@@ -175,6 +175,57 @@ CLAIMS = {
                   "that the files load with standard tooling.",
         technique="data-independence of a width (abstract terms) + non-interference + library-fact call conformance + table checks",
         ref="5/C15"),
+
+    "C03": dict(
+        text="Static, partial (structural necessary conditions of the round trip): keys a custom to_obj emits are keys its "
+             "from_obj accepts; paired conversions are inverses (hex/unhex over the full value, json dumps/loads for structured "
+             "map keys, star expansion of tuple names, no filtering/slicing/case change in any renderer); every dump of the "
+             "parse output keeps key order; format tables symmetric and dispatched by their own key; hierarchy expansion "
+             "replaces a dependency only by the parse of that very value, YAML anchors precede aliases, expansion only on "
+             "request; union alternatives, their order and the size constraints that disambiguate byte strings equal the "
+             "reference; validator symmetry between the parse and create entry points of each leaf type (two recorded known "
+             "findings).",
+        note=TB + "NOT decided: byte identity of manifest / wrapper / severed members after parse->create; equality of payload "
+                  "sets; full round-trip equality over the recursive grammar (relation over values).",
+        technique="writer/reader agreement by abstract evaluation + AST facts; schema-shape comparison; predicate-set comparison of sibling entry points",
+        ref="5/C03"),
+    "C17": dict(
+        text="Static, error discipline: a may-escape analysis with untrusted-value narrowing over all from_cbor / to_obj / "
+             "__init__ / helper methods of the schema classes (47 functions): every operation on a decoder-controlled value "
+             "must be dominated by a type/length check, go through the converting helpers or sit in a handler; classes that "
+             "can leave the parser must be within {ValueError family, SUITError, CBORDecodeError}; every from_cbor call passes "
+             "bytes; sibling signatures; nullable metadata fields; cbor2.loads only inside deserialize_cbor after validation "
+             "under a converting catch-all; schema cycles through a byte-string-wrapped edge need a depth guard (one "
+             "recorded known finding).",
+        note=TB + "Exception hierarchy and decoder facts (cbor2 max_depth=400; hasattr(x,'tag') only for CBORTag) are library "
+                  "facts. NOT decided: time and memory proportional to the input.",
+        technique="may-escape (exception) analysis with flow-sensitive type narrowing of untrusted values; signature conformance; SCC analysis of the schema graph",
+        ref="5/C17"),
+    "C18": dict(
+        text="Static, effect freedom: over the call graph of create/parse/image/mpi/cache_create/payload_extract/convert (145 "
+             "functions) no clock, RNG, uuid1/uuid4, id(), hash(), environment, cwd, unsorted listing or set construction is "
+             "reachable and no cache decorator exists; on sign/encrypt only the KMS signature, the one os.urandom(12) and the "
+             "module-name uuid4 (proved to flow only into the sys.modules key) are allowed; all 250 functions scanned: no store "
+             "to a module global, class attribute or class-level container, type metadata written only by the three "
+             "module-level patches; signer/encryptor attributes assigned in the same activation before any read; both text "
+             "loaders return the parsed description unmodified into one pipeline.",
+        note=TB + "Call graph: name-based class-hierarchy analysis (over-approximation), unresolved call sites counted in the "
+                  "evidence. NOT decided: equality of outputs across process histories (needs execution).",
+        technique="effect analysis over a whole-program call graph (CHA) + write-set scan for shared state + per-call state by abstract evaluation",
+        ref="5/C18"),
+    "C19": dict(
+        text="Static, all paths: the Jinja AST of both shipped templates is interpreted over every configuration of the "
+             "`is defined` atoms (root: 7 non-empty image subsets x sequence/version variables x radio aliases x "
+             "default/custom MPI names = 896; top: 16) with placeholder tokens for unknown leaves; each resulting document is "
+             "type-checked against the schema graph extracted from the encoder (every key in the key space of its position, "
+             "every enum literal, every policy bit) and walked: component indices in range, dependency keys are manifest "
+             "components, each fetched #name embedded under that name with its digest computed from the embedded file, "
+             "components/identifiers follow the present images and configured-or-default names whose defaults carry the "
+             "expected roles in the storage table; build glue order.",
+        note=TB + "jinja2 and PyYAML are used as parsers only. NOT decided: behaviour with concrete child envelopes (equality of "
+                  "the digests themselves is C05).",
+        technique="abstract interpretation of the Jinja AST (exhaustive over configurations) + schema type-check + manifest walk",
+        ref="5/C19"),
 }
 
 NOT_YET = "check not built yet in this round (see DESIGN.md section 9 build order)"
